@@ -252,6 +252,8 @@ def run(tier):
                  ["en-us-g1.ctb", "en-us-g2.ctb", "es-g1.ctb", "fr-bfu-comp6.utb", "en-gb-g1.utb", "cs-g1.ctb",
                   "nl-NL-g0.utb", "en-us-comp6.ctb", "en-us-comp8.ctb", "unicode-braille.utb"]
                  if os.path.exists(os.path.join(corpus.TABLES, tn))]
+    want_reallocs = 3
+    bases = []
     for si, (bk, arg, n, every) in enumerate(seqs):
         t = G.Tbl()
         setup = ["HOOK arena 1"]
@@ -267,11 +269,27 @@ def run(tier):
             base = corpus.tpath(arg)
             G.gen_alphabet(rng, t)          # only a pool of characters / cells for the generated additions
             t.rules = []
+        bases.append((base, t, setup))
+    # measure the free space of every base (the allocator is deterministic) to decide how many long rules a sequence needs
+    meas = [common.Case("m%d" % si, [x for x in setup if x.startswith("TBL")], ["RAWDUMP %s nofinal" % base], {})
+            for si, (base, t, setup) in enumerate(bases)]
+    common.run_cases(exe, meas, batch=1, timeout=600)
+    for si, ((bk, arg, n, every), (base, t, setup)) in enumerate(zip(seqs, bases)):
+        fat = 0.0
+        f = meas[si].out[0].split(" ") if meas[si].out else []
+        if len(f) > 4 and f[1] == "t" and f[2] != "null":
+            used, size = int(f[3]), int(f[4])
+            total = 0
+            for _ in range(want_reallocs + 1):
+                total += size - used + 64
+                used = size + 64
+                size = used + used // 8
+            fat = min(0.6, max(0.0, (1.25 * total / n - 75.0) / 600.0))
         ops = ["ADD %s %s" % (base, common.hexbytes("# compile without finalising")),
                "DUMP %s nofinal" % base, "RAWDUMP %s nofinal" % base]
         texts = []
         for k in range(n):
-            txt, kind = G.gen_addition(rng, t, k + 1000 * si, malformed=0.08)
+            txt, kind = G.gen_addition(rng, t, k + 1000 * si, malformed=0.08, fat=fat)
             texts.append((txt, kind))
             ops.append("ADD %s %s" % (base, common.hexbytes(txt)))
             # every < 0: every prefix of the first -every additions, then every 20th
@@ -279,7 +297,7 @@ def run(tier):
                 ops += ["DUMP %s nofinal" % base, "RAWDUMP %s nofinal" % base]
         # finally the finalised image
         ops += ["DUMP %s" % base, "RAWDUMP %s" % base]
-        cases.append(common.Case("add%d" % si, setup, ops, {"kind": "additions", "base": bk, "arg": arg, "texts": texts}))
+        cases.append(common.Case("add%d" % si, setup, ops, {"kind": "additions", "base": bk, "arg": arg, "texts": texts, "fat": fat}))
     # ---- relocation while the compiler holds pointers: steer the free space so that the image grows at the j-th allocation
     #      of a rule that allocates several objects (the allocator is deterministic; phase 1 measures the base)
     probe = common.Case("bprobe", ["HOOK arena 1", "TBL bb.ctb " + common.hexbytes(BOUNDARY_BASE)],
@@ -423,9 +441,9 @@ def run(tier):
     seen_f6 = hit or any(s.startswith("C12:passref:zero") for s, _, _ in v.violations)
     v.obligation("the F6 witnesses (reference 0 embedded after an undefined grouping / swap name) are detected by checkImage",
                  bool(f6) and bool(seen_f6), "the checker did not flag the F6 witness tables")
-    need = 2 if quick else 3
-    short = [c.id for c in cases if c.meta["kind"] == "additions" and c.meta["base"] != "boundary" and not c.fault and c.meta.get("reallocs", 0) < need]
-    v.obligation("every addition sequence forces the image to grow through several reallocations", not short, "too few: %s" % short)
+    need = want_reallocs
+    short = [c.id for c in cases if c.meta["kind"] == "additions" and c.meta["base"] != "boundary" and (c.fault or c.meta.get("reallocs", 0) < need)]
+    v.obligation("every addition sequence runs to its end and forces the image to grow through several reallocations", not short, "faulted or too few: %s" % short)
     v.cov["distribution"] = dist
     for c in cases:
         if c.meta["kind"] == "additions" and not c.fault and len(v.cov["samples"]) < 3:
